@@ -157,18 +157,13 @@ func checkC20(r *Run) {
 			msg := work[0].msg
 			work = work[1:]
 			handovers := 0
-			for _, g := range withClosures(f) {
-				eachInstr(g, func(in ssa.Instruction) {
-					cc := callCommon(in)
-					if cc == nil || !cc.IsInvoke() || cc.Method.Name() != "Serve" || typeName(cc.Value.Type()) != "Handler" {
-						return
-					}
+			hos := c.serveHandovers(f)
+			for _, ho := range hos {
+				func(ho serveHandover) {
+					g, in := ho.Fn, ho.In
 					handovers++
 					key := FuncName(g) + "/Serve"
-					if len(cc.Args) != 1 {
-						r2.Undecided(key, in.Pos(), "unexpected arity")
-						return
-					}
+					cc := &ssa.CallCommon{Args: []ssa.Value{ho.Arg}}
 					arg := c.Resolve(cc.Args[0])
 					k, ok := arg.(*ssa.Call)
 					if !ok || c.StaticCalleeOf(&k.Call) != clone || clone == nil {
@@ -183,10 +178,11 @@ func checkC20(r *Run) {
 						r2.Bad(key, in.Pos(), "clone() is evaluated inside closure %s, i.e. possibly after the dispatcher returned / in another goroutine; the caller may already have reused its message", FuncName(k.Parent()))
 						return
 					}
-					if g != f {
-						r2.Bad(key, in.Pos(), "hand-over happens inside closure %s; the copy must be an operand of the go statement", FuncName(g))
+					if ho.At == nil {
+						r2.Bad(key, in.Pos(), "hand-over happens inside closure %s, which the dispatcher does not itself invoke exactly once; the copy must be an operand of the go statement", FuncName(g))
 						return
 					}
+					in = ho.At
 					// fresh per hand-over: no path from entry or from any hand-over to this one avoiding the clone call
 					avoid := PathQ{BlockInstr: func(x ssa.Instruction) bool { return x == ssa.Instruction(k) }}
 					if _, ok := CanReach(f, nil, func(x ssa.Instruction) bool { return x == in }, avoid); ok {
@@ -194,21 +190,20 @@ func checkC20(r *Run) {
 						return
 					}
 					stale := false
-					eachInstr(f, func(j ssa.Instruction) {
-						cj := callCommon(j)
-						if cj == nil || !cj.IsInvoke() || cj.Method.Name() != "Serve" {
-							return
+					for _, other := range hos {
+						if other.At == nil {
+							continue
 						}
-						if _, ok := CanReach(f, j, func(x ssa.Instruction) bool { return x == in }, avoid); ok {
+						if _, ok := CanReach(f, other.At, func(x ssa.Instruction) bool { return x == in }, avoid); ok {
 							stale = true
 						}
-					})
+					}
 					if stale {
 						r2.Bad(key, in.Pos(), "the same clone can be handed to two handlers (a path from one hand-over to the next avoids the clone() call: hoisted out of the loop?)")
 						return
 					}
 					r2.OK(key, in.Pos(), "argument is clone(%s) evaluated in %s before each hand-over", msg.Name(), FuncName(f))
-				})
+				}(ho)
 			}
 			totalHandovers += handovers
 			// helpers that receive the dispatcher's message unchanged are analysed as part of the dispatcher
